@@ -789,3 +789,76 @@ func lowerBoundAt(info *types.Info, ld *eng.LocalDefs, fd *ast.FuncDecl, v ast.E
 	}
 	return lb, why
 }
+
+// ---------------------------------------------------------------------------------------
+// Lexer progress (a necessary condition of "never hang"): where the dispatching state
+// un-reads a rune it has classified with a predicate function P and hands over to a state S,
+// S must consume that rune — S applies the SAME predicate P to the runes it absorbs. If the two
+// sites classify differently, a rune that P accepts and S does not is un-read by S as well:
+// an empty token is emitted, the dispatcher sees the rune again, and Lex never returns.
+func lexerProgressRule(p *core.Program, r *core.Report) {
+	pk := p.Pkg("parser/lexer")
+	if pk == nil {
+		return
+	}
+	info := pk.TypesInfo
+	decls := map[types.Object]*ast.FuncDecl{}
+	for _, fd := range p.FuncDecls("parser/lexer") {
+		decls[info.Defs[fd.Name]] = fd
+	}
+	n := 0
+	for _, fd := range p.FuncDecls("parser/lexer") {
+		if fd.Body == nil {
+			continue
+		}
+		eng.StmtLists(fd.Body, func(list []ast.Stmt) {
+			for i := range list {
+				for _, br := range eng.BranchChain(list, i) {
+					if br.Cond == nil {
+						continue
+					}
+					c, ok := eng.Unparen(br.Cond).(*ast.CallExpr)
+					if !ok || len(c.Args) != 1 {
+						continue
+					}
+					pred := eng.CalleeOf(info, c)
+					if pred == nil || pred.Pkg() != pk.Types || pred.Type().(*types.Signature).Recv() != nil {
+						continue
+					}
+					// body: …backup(); return S
+					backs := false
+					var next *ast.FuncDecl
+					for _, st := range br.Body {
+						if es, ok := st.(*ast.ExprStmt); ok {
+							if bc, ok := es.X.(*ast.CallExpr); ok {
+								if sel, ok := bc.Fun.(*ast.SelectorExpr); ok && sel.Sel.Name == "backup" {
+									backs = true
+								}
+							}
+						}
+						if rs, ok := st.(*ast.ReturnStmt); ok && len(rs.Results) == 1 {
+							if id, ok := eng.Unparen(rs.Results[0]).(*ast.Ident); ok {
+								next = decls[info.Uses[id]]
+							}
+						}
+					}
+					if !backs || next == nil || next == fd || next.Body == nil {
+						continue
+					}
+					n++
+					same := false
+					ast.Inspect(next.Body, func(m ast.Node) bool {
+						if cc, ok := m.(*ast.CallExpr); ok && eng.CalleeOf(info, cc) == pred {
+							same = true
+						}
+						return true
+					})
+					r.Check(same, "R4.3", "parser/lexer."+fd.Name.Name+" → "+next.Name.Name+"/the un-read rune is consumed (same predicate "+pred.Name()+")", p.Pos(br.Pos),
+						"the state absorbs runes by the predicate the dispatcher classified with",
+						"the dispatcher un-reads a rune accepted by "+pred.Name()+" and enters `"+next.Name.Name+"`, which does not apply "+pred.Name()+" to what it absorbs: a rune the two sites classify differently is never consumed and Lex does not return")
+				}
+			}
+		})
+	}
+	r.Analysed["lexer_handovers_examined"] = n
+}
